@@ -49,7 +49,13 @@ func describeErrReturn(p *Prog, r *ssa.Return, idx int) string {
 	return "return " + s
 }
 
-func ruleAtomic(c *Ctx) {
+func ruleAtomic(c *Ctx) { ruleAtomicImpl(c, false) }
+
+// ruleAtomicDS: R-ATOMIC restricted to publications into the list/set/sorted-set indexes (C05-C07): a failed
+// commit must not leave data-structure operations applied.
+func ruleAtomicDS(c *Ctx) { ruleAtomicImpl(c, true) }
+
+func ruleAtomicImpl(c *Ctx, dsOnly bool) {
 	commit := c.P.MustFunc("(*Tx).Commit")
 	c.touch(commit)
 	wl := findWriteLoop(c)
@@ -86,13 +92,20 @@ func ruleAtomic(c *Ctx) {
 		if d == "" {
 			return
 		}
+		if dsOnly && (strings.HasPrefix(d, "DB.committedTxIds") || strings.HasPrefix(d, "publish (*BPTree).Insert (")) {
+			return
+		}
 		ord[d]++
 		if ord[d] > 1 {
 			d = fmt.Sprintf("%s #%d", d, ord[d])
 		}
 		evs = append(evs, pubEvent{in, d})
 	})
-	c.minInstances("publishing events in Commit", len(evs), 3)
+	if dsOnly {
+		c.minInstances("publishing events in Commit", len(evs), 1)
+	} else {
+		c.minInstances("publishing events in Commit", len(evs), 3)
+	}
 	// error exits
 	idx := errResultIndex(commit)
 	var exits []*ssa.Return
